@@ -178,6 +178,7 @@ struct World {
   uint64_t sw_hash = FNV0;
   std::map<sexp, int> thread_ids;
   int64_t max_top = 0;
+  int64_t max_stack_len = 0;   // largest stack object seen at a tick (any context)
   bool sample_stack = false;
 
   void event(const char* fmt, ...) __attribute__((format(printf, 2, 3)));
@@ -1104,6 +1105,8 @@ static sexp sim_scheduler(sexp ctx, sexp self, sexp_sint_t n, sexp root_thread) 
   if (W.sample_stack) {
     int64_t top = sexp_context_top(ctx);
     if (top > W.max_top) W.max_top = top;
+    int64_t slen = sexp_stack_length(sexp_context_stack(ctx));
+    if (slen > W.max_stack_len) W.max_stack_len = slen;
   }
   if (W.tick_budget && W.ticks > W.tick_budget) {
     W.violate("budget", "tick budget exceeded (no termination within the step bound)");
@@ -1342,7 +1345,7 @@ static void emit_result(const char* status) {
   w.kv("ticks", W.ticks); w.kv("switches", W.switches);
   w.kv("sim_us", (int64_t)(W.now_us - 1700000000LL * 1000000LL)); w.kv("slept_us", W.slept_us);
   w.kv("live_max", W.live_bytes_max); w.kv("heap_max", W.heap_total_max); w.kv("heap_initial", W.heap_initial_total);
-  w.kv("largest_req", W.largest_req); w.kv("max_top", W.max_top);
+  w.kv("largest_req", W.largest_req); w.kv("max_top", W.max_top); w.kv("max_stack_len", W.max_stack_len);
   w.kv("threads", (int64_t)W.thread_ids.size());
   w.end_obj();
   w.key("counters"); w.begin_obj();
